@@ -205,7 +205,9 @@ type world struct {
 	userBlock cipher.Block
 	idBlocks  []cipher.Block
 
-	tunnel conn.Addr
+	tunnel     conn.Addr
+	polC, polS string // padding policies of the client / of the server (ss2022)
+	only       bool   // direct server: tunnelUDPTargetOnly
 }
 
 func serverAddrPort(v6 bool) netip.AddrPort {
@@ -224,7 +226,7 @@ func derivKey(seed uint64, i, n int) []byte {
 }
 
 func newWorld(p proto, mtu int, srv6 bool, polC, polS string, tunnel conn.Addr, only bool, keySeed uint64) (*world, error) {
-	w := &world{p: p, mtu: mtu, serverAP: serverAddrPort(srv6), tunnel: tunnel}
+	w := &world{p: p, mtu: mtu, serverAP: serverAddrPort(srv6), tunnel: tunnel, polC: polC, polS: polS, only: only}
 	ctx := context.Background()
 	serverAddr := conn.AddrFromIPPort(w.serverAP)
 	switch p.name {
